@@ -439,6 +439,7 @@ class Worker:
                 # When a task is cancelled on the worker it is not removed
                 # from the ready queue because it is much cheaper to just
                 # discard cancelled tasks as they come out.
+                self._tasks.pop(addr, None)
                 continue
 
             task = task_or_none
@@ -448,7 +449,9 @@ class Worker:
                 # then discard this one too. Each breadcrumb (bcb) is a
                 # task address (unique system-wide task id) of an ancestor
                 # task.
-                # TODO: do I need to manually remove addr from self._tasks?
+                # It arrived after the cancel was handled, so it is still
+                # registered: forget it, nothing else ever will.
+                self._tasks.pop(addr, None)
                 continue
 
             return task
